@@ -9,9 +9,9 @@ import vlib
 META = {
     "property_id": "C10",
     "level": "proof",
-    "technique": "Coq theorem over all histories of Get/MustGet/GetOrDefault on a model of getFromCache (memo keyed by (key, reflect.Type), one atomic step per request) + in-kernel correspondence of model, fresh-Config results and the real gconfig on generated histories over colliding keys/types; concurrent mixes with the race detector in the thorough tier",
+    "technique": "Coq theorem over all histories of Get/MustGet/GetOrDefault on a model of getFromCache (memo keyed by (key, reflect.Type), one atomic step per request) + translator tie (getFromCache regenerated as Gallina over memo entries with dynamic types, xsync Compute and the final type assertion; proved to refine the model and never to panic) + in-kernel correspondence of model, fresh-Config results and the real gconfig on generated histories over colliding keys/types; concurrent mixes with the race detector in the thorough tier",
     "design_ref": "DESIGN.md §4 C10",
-    "level_text": "Proof: GConfCacheProofs.v shows for every history (any length) of Get/MustGet/GetOrDefault over any keys and result types that each request returns exactly what the same request returns on a freshly loaded Config (run_all_fresh), that no request panics other than MustGet reporting the conversion's error, that removing a request never changes the others, and that every interleaving of goroutines whose requests are atomic steps is such a history (Props/C10.v, closed under the global context); the conversion extractAndConvert is a Section function (deterministic, cache-independent). The pinned code is kept as get_cached_orig with two machine-checked counterexamples (memo-string collision; nil interface). Tied to the source by running histories on the real library and comparing every outcome with a fresh Config and with the model inside Coq.",
+    "level_text": "Proof: GConfCacheProofs.v shows for every history (any length) of Get/MustGet/GetOrDefault over any keys and result types that each request returns exactly what the same request returns on a freshly loaded Config (run_all_fresh), that no request panics other than MustGet reporting the conversion's error, that removing a request never changes the others, and that every interleaving of goroutines whose requests are atomic steps is such a history (Props/C10.v, closed under the global context); the conversion extractAndConvert is a Section function (deterministic, cache-independent). The pinned code is kept as get_cached_orig with two machine-checked counterexamples (memo-string collision; nil interface). Tied to the source (T) by xlate_gconf -set cache + coq/ties/Tie_C10.v (refinement of the model by the regenerated getFromCache) and (C) by running histories on the real library and comparing every outcome with a fresh Config and with the model inside Coq.",
     "level_note": "Partial: atomicity of xsync.MapOf.Compute per key and data-race freedom are assumed by the model (exercised by 16 goroutines under the race detector in the thorough tier). Trusted: Coq kernel + vm_compute; fidelity of GConfCacheModel.v (correspondence); determinism of yaml re-marshal conversion (recorded per case from fresh Configs). No axioms.",
     "allowed_axioms": [],
 }
@@ -60,13 +60,12 @@ def view(j):
         q = j["ops"][i]
         v["first_bad_request"] = {"index": i, "request": "%s[%s](%r)" % (q["op"], j["types"][q["ty"]], q["key"]),
                                   "shared": j["obs"][i], "fresh": j["fresh"][i]}
-    if n <= 12:
-        v["yaml"] = j["yaml"]
+    v["document"] = "see input.yaml (%d bytes)" % len(j["yaml"])
     return v
 
 
 def to_input(j):
-    return {"ops": j["ops"]}
+    return {"ops": j["ops"], "yaml": j["yaml"]}
 
 
 def variants(inp):
@@ -82,7 +81,7 @@ def variants(inp):
             key = json.dumps(cand)
             if cand and key not in seen:
                 seen.add(key)
-                out.append({"ops": cand})
+                out.append({"ops": cand, "yaml": inp.get("yaml", "")})
     if n == 1:
         return []
     return out
@@ -103,9 +102,16 @@ def run(ctx):
     if not binp:
         return
     quick = ctx.tier == "quick"
+    tie_ok, tie_detail = ctx.translator_tie(
+        "xlate_gconf", ["-src", os.path.join(ctx.copy_repo(), "gconfig"), "-set", "cache"],
+        "GConfCacheGen", "Tie_C10")
+    ctx.log("translator tie:", "OK" if tie_ok else "BROKEN", "-", tie_detail.splitlines()[0])
     runs = [("corpus", ["-mode", "corpus"]),
-            ("random", ["-mode", "random", "-n", 30 if quick else 1500, "-len", 200]),
+            ("random", ["-mode", "random", "-n", 30 if quick else 600, "-len", 200]),
             ("conc", ["-mode", "concurrent", "-n", 2 if quick else 10, "-g", 16, "-len", 40 if quick else 200])]
+    cr = gl.corpus_run(ctx, "C10")
+    if cr:
+        runs.insert(1, cr)
     ctx.log("harness built")
     terms, jsons, err = vlib.harness_cases(ctx, binp, runs)
     ctx.log("harness ran: %d histories" % len(jsons))
@@ -136,6 +142,14 @@ def run(ctx):
                            2: "outcomes agree with fresh Configs but differ from the Coq model of getFromCache"}[code],
                "replay_cmd": "./check C10 --replay <this file>"}
         ctx.report(rep, features(j), failing_input=(code == 1))
+    if not tie_ok:
+        ctx.cov["translator_tie"] = {"status": "BROKEN", "detail": tie_detail[-600:]}
+        if not any(c == 1 for _, c in bad):
+            gen = os.path.join(ctx.gen, "GConfCacheGen.v")
+            ctx.report({"unchecked": "translator tie Tie_C10 (regenerated getFromCache refines GConfCacheModel.get_cached)",
+                        "detail": tie_detail[-2500:],
+                        "generated": open(gen).read()[-2500:] if os.path.isfile(gen) else None},
+                       {"kind": "translator_tie"}, failing_input=False)
     reqs = [q for j in jsons for q in j["ops"]]
     ctx.cov.update({
         "evaluations": len(jsons),
